@@ -116,6 +116,7 @@ def run_session(spec):
         for act in spec["actions"]:
             a = act["a"]
             mark = len(vmod.CALLS)
+            lo = len(c05_shim.current_log())
             try:
                 if a == "call":
                     r = {"ok": cf(act["k"])}
@@ -164,6 +165,7 @@ def run_session(spec):
                      "site": [fr.name for fr in traceback.extract_tb(e.__traceback__)
                               if "joblib" in fr.filename or fr.filename.endswith(("os.py", "shutil.py"))]}
             r["computed"] = [x for (who, x) in vmod.CALLS[mark:] if who == threading.get_ident()]
+            r["ops"] = [lo, len(c05_shim.current_log())]
             results.append(r)
     except BaseException as e:  # construction failed
         import traceback
